@@ -1,6 +1,12 @@
 //! Single-threaded monitors: C11–C17, C20. Runs natively and under Miri.
 
+mod c13;
+mod c14;
+mod c15;
 mod c16;
+mod c17;
+mod c20;
+mod mockio;
 
 use vh_core::{Args, Report};
 
@@ -9,7 +15,12 @@ fn main() {
     let args = Args::parse();
     let mut rep = Report::new(&args);
     match args.prop.as_str() {
+        "C13" => c13::run(&args, &mut rep),
+        "C14" => c14::run(&args, &mut rep),
+        "C15" => c15::run(&args, &mut rep),
         "C16" => c16::run(&args, &mut rep),
+        "C17" => c17::run(&args, &mut rep),
+        "C20" => c20::run(&args, &mut rep),
         p => {
             eprintln!("vh-local: unknown property {p}");
             std::process::exit(2);
